@@ -136,15 +136,22 @@ theorem readable_until_gone_run {cfg : Cfg σ} {ops : List Op} {c c' : Cache σ}
 /-! ## "The number of resident entries stays within the configured capacity plus the currently
 pinned ones plus a fixed maintenance slack" -/
 
-/-- The property's bound as stated, for the cache `TinyLFU::new` builds (repaired `unpin`), both
-strategies, one fixed slack `S`; under `Notify` the client follows the documented protocol (every
-release is notified). -/
+/-- The property's bound, for the cache `TinyLFU::new` builds (the code as it is: repaired `unpin`, F4, and
+whole-region Poll trim, F15), both strategies, one fixed slack `S` over the currently pinned count.  Under `Notify` the
+client follows the documented protocol (every release is notified).  Under `Poll` releases are silent by design, and a
+polling cache cannot know about a release before it polls again (the listener is only asked during a maintenance
+round): an entry released since the last round is, for the cache, still pinned.  "Currently pinned" is therefore read
+as "pinned when the cache last polled", i.e. the entries pinned now plus the releases since the last maintenance
+round (`Cache.rel`, a ghost field no operation reads).  Without that term no bound exists for ANY polling cache:
+pin `n` entries, insert them, release them all without calling the cache — `n` resident, none pinned, and the cache
+has not run since.  Proved below: `C16_bounded` (with `S = 32`). -/
 def C16_bounded_full_statement : Prop :=
   ∃ S : Nat, ∀ (capacity : Nat) (poll : Bool) (ops : List Op) (c : Cache Sketch), 1 ≤ capacity →
     (poll = false → ∀ op, op ∈ ops → ∀ t, op ≠ .unpin t) →
     run (Cfg.real capacity poll true (fun k _ => k)) (Cache.real capacity) ops = .ok c →
     c.core.st.length ≤ (capsOf capacity).1 + (capsOf capacity).2.2
       + pinnedNow (Cfg.real capacity poll true (fun k _ => k)) c.pins c.core.st + S
+      + (if poll then c.rel.length else 0)
 
 /-- `Notify` strategy, any capacities, any sketch, pin token = key, every release notified
 (`unpinNotify`; no silent `unpin`): in every reachable state
@@ -166,11 +173,12 @@ theorem bounded_notify_real (capacity : Nat) (fix : Bool) (ops : List Op) (c : C
       + pinnedNow (Cfg.real capacity false fix (fun k _ => k)) c.pins c.core.st + 32 :=
   bounded_notify (cfg := Cfg.real capacity false fix (fun k _ => k)) (real_caps capacity) rfl (fun _ _ => rfl) hq h
 
-/-- Either strategy, any listener, any history (silent releases included): with the size of the policy's
+/-- HISTORICAL as the `Poll` headline (it was all that held for the code before the fix of finding F15,
+`Cfg.fixTrim = false`, see `bounded_poll_slack32_refuted`; the headline is now `bounded_poll`).  Still true for every
+configuration (either strategy, either trim, ANY listener — also value tokens, i.e. the lock table — any history,
+silent releases included), and still what the harness's `bound-partial` oracle uses: with the size of the policy's
 pinned region in place of the number of currently pinned entries,
-`resident ≤ window capacity + main capacity + |pinned region| + MAINTENANCE_BATCH_SIZE`.
-For `Poll` this is what holds: no fixed slack over the *currently* pinned count exists, see
-`bounded_poll_slack32_refuted`. -/
+`resident ≤ window capacity + main capacity + |pinned region| + MAINTENANCE_BATCH_SIZE`. -/
 theorem bounded_poll_partial {cfg : Cfg σ} {sk : σ} {ops : List Op} {c : Cache σ}
     (hpm : cfg.protectedCap < cfg.mainLimit) (h : run cfg (Cache.init sk) ops = .ok c) :
     c.core.st.length ≤ cfg.windowCap + cfg.mainLimit + c.core.lru.pinned.length + cfg.batch :=
@@ -285,28 +293,15 @@ theorem regions_within_capacity {cfg : Cfg σ} {sk : σ} {ops : List Op} {c : Ca
   let hi := run_inv hpm h (init_inv cfg sk)
   ⟨hi.core.wf, hi.core.caps, hi.core.nodup, hi.wlen⟩
 
-/-! ### `Poll`: no slack of 32 over the currently pinned count -/
+/-! ### `Poll` (the code as it is: the trim visits the whole pinned region, finding F15 fixed) -/
 
-/-- Witness (exact sketch, capacity 1, `Poll`, repaired `unpin`): after `pollAdversary` 57 entries are
-resident although window + main capacity is 2 and only 2 entries are pinned — more than
-`2 + 2 + 32`.  The trim loop stops at the first still-pinned entry of the pinned region, so entries
-released behind it survive maintenance rounds; the excess grows with the number of blockers (the
-harness replays the family on the real cache: 10 blockers keep 157 released entries alive). -/
-theorem bounded_poll_slack32_refuted :
-    (match run (Cfg.real 1 true true (fun k _ => k)) (Cache.real 1) pollAdversary with
-     | .ok c => decide (c.core.st.length = 57 ∧
-          pinnedNow (Cfg.real 1 true true (fun k _ => k)) c.pins c.core.st = 2 ∧
-          (capsOf 1).1 + (capsOf 1).2.2 = 2)
-     | .error _ => false) = true := by
-  decide +kernel
-
-/-! ### `Poll` with the proposed repair of finding F15 (`fixes/F15-poll-trim-scan.diff`, not applied) -/
-
-/-- If the Poll trim visits the whole pinned region (`Cfg.fixTrim`), then in every reachable state
+/-- `Poll` strategy, any capacities, any sketch, pin token = key, ANY history (silent releases, notifications, both):
+in every reachable state
 `resident ≤ window capacity + main capacity + currently pinned + MAINTENANCE_BATCH_SIZE + r`, where `r` is the
 number of releases since the last maintenance round (`Cache.rel`, a ghost field no operation reads): a polling
-cache cannot know about those before it polls again; everything older is reclaimed. -/
-theorem bounded_poll_repaired {cfg : Cfg σ} {sk : σ} {ops : List Op} {c : Cache σ}
+cache cannot know about those before it polls again; everything released earlier has been reclaimed.
+(`hfix` holds for every configuration `Cfg.real` builds: `fixTrim` defaults to `true`.) -/
+theorem bounded_poll {cfg : Cfg σ} {sk : σ} {ops : List Op} {c : Cache σ}
     (hpm : cfg.protectedCap < cfg.mainLimit) (hpoll : cfg.poll = true) (hfix : cfg.fixTrim = true)
     (htok : ∀ k v, cfg.tok k v = k) (h : run cfg (Cache.init sk) ops = .ok c) :
     c.core.st.length ≤ cfg.windowCap + cfg.mainLimit + pinnedNow cfg c.pins c.core.st + cfg.batch + c.rel.length := by
@@ -314,12 +309,57 @@ theorem bounded_poll_repaired {cfg : Cfg σ} {sk : σ} {ops : List Op} {c : Cach
   have hn := run_pinv htok hpm hpoll hfix h (by intro k hk; simp [Cache.init] at hk)
   exact bound_poll_fixed htok hi hn
 
-/-- The adversary of `bounded_poll_slack32_refuted` against the repaired trim: 35 resident instead of 57
-(capacity 2, 2 pinned, the 33 entries released since the last round are still there, none older). -/
-theorem poll_adversary_repaired :
-    (match run { Cfg.real 1 true true (fun k _ => k) with fixTrim := true } (Cache.real 1) pollAdversary with
-     | .ok c => decide (c.core.st.length = 35 ∧ c.rel.length = 33 ∧
-          pinnedNow (Cfg.real 1 true true (fun k _ => k)) c.pins c.core.st = 2)
+/-- The `Poll` half of the full statement for the real configuration, with `S = 32`. -/
+theorem bounded_poll_real (capacity : Nat) (fix : Bool) (ops : List Op) (c : Cache Sketch)
+    (h : run (Cfg.real capacity true fix (fun k _ => k)) (Cache.real capacity) ops = .ok c) :
+    c.core.st.length ≤ (capsOf capacity).1 + (capsOf capacity).2.2
+      + pinnedNow (Cfg.real capacity true fix (fun k _ => k)) c.pins c.core.st + 32 + c.rel.length :=
+  bounded_poll (cfg := Cfg.real capacity true fix (fun k _ => k)) (real_caps capacity) rfl rfl (fun _ _ => rfl) h
+
+/-- The property's bound (`C16_bounded_full_statement`), both strategies, `S = 32`. -/
+theorem C16_bounded : C16_bounded_full_statement := by
+  refine ⟨32, ?_⟩
+  intro capacity poll ops c _ hq h
+  cases poll with
+  | false => simpa using bounded_notify_real capacity true ops c (hq rfl) h
+  | true => simpa using bounded_poll_real capacity true ops c h
+
+/-- The adversary (`pollAdversary`: 2 blockers pinned for ever, two rounds of 33 pinned-inserted-released keys) on the
+code as it is: 35 resident (capacity 2, 2 pinned, the 33 entries released since the last round are still there, none
+older); `pollAdversary5` (5 blockers, four rounds): 38. -/
+theorem poll_adversary_bounded :
+    (match run (Cfg.real 1 true true (fun k _ => k)) (Cache.real 1) pollAdversary,
+           run (Cfg.real 1 true true (fun k _ => k)) (Cache.real 1) pollAdversary5 with
+     | .ok c, .ok c5 => decide (c.core.st.length = 35 ∧ c.rel.length = 33 ∧
+          pinnedNow (Cfg.real 1 true true (fun k _ => k)) c.pins c.core.st = 2 ∧
+          c5.core.st.length = 38 ∧ c5.rel.length = 33 ∧
+          pinnedNow (Cfg.real 1 true true (fun k _ => k)) c5.pins c5.core.st = 5)
+     | _, _ => false) = true := by
+  decide +kernel
+
+/-! ### HISTORICAL — `Poll` before the fix of finding F15 (`fixTrim := false`, explicitly) -/
+
+/-- HISTORICAL (F15, code before the fix: `{ … with fixTrim := false }`).  Witness (exact sketch, capacity 1, `Poll`):
+after `pollAdversary` 57 entries are resident although window + main capacity is 2 and only 2 entries are pinned — more
+than `2 + 2 + 32`.  The trim loop stopped at the first still-pinned entry of the pinned region, so entries released
+behind it survived maintenance rounds; the excess grew with the number of blockers. -/
+theorem bounded_poll_slack32_refuted :
+    (match run { Cfg.real 1 true true (fun k _ => k) with fixTrim := false } (Cache.real 1) pollAdversary with
+     | .ok c => decide (c.core.st.length = 57 ∧
+          pinnedNow (Cfg.real 1 true true (fun k _ => k)) c.pins c.core.st = 2 ∧
+          (capsOf 1).1 + (capsOf 1).2.2 = 2)
+     | .error _ => false) = true := by
+  decide +kernel
+
+/-- HISTORICAL (F15, `fixTrim := false`): the bound of `bounded_poll` itself — releases since the last round allowed
+for — failed for the code before the fix, i.e. `hfix` is needed: after `pollAdversary5` 95 entries are resident, more
+than `2 + 5 pinned + 32 + 33 released since the last round = 72`.  This is the history the harness replays on the real
+cache on every run (signature `bound-poll:excess-grows-with-blockers`): it must stay within the bound. -/
+theorem bounded_poll_needs_whole_region_trim :
+    (match run { Cfg.real 1 true true (fun k _ => k) with fixTrim := false } (Cache.real 1) pollAdversary5 with
+     | .ok c => decide (c.core.st.length = 95 ∧ c.rel.length = 33 ∧
+          pinnedNow (Cfg.real 1 true true (fun k _ => k)) c.pins c.core.st = 5 ∧
+          (capsOf 1).1 + (capsOf 1).2.2 = 2)
      | .error _ => false) = true := by
   decide +kernel
 
